@@ -177,6 +177,7 @@ def parseOp (s : String) : R Op :=
 def parseEv (j : Json) : R Ev := do
   match ← arr j with
   | [.str "peerSend"] => return .peerSend
+  | [.str "peerPart"] => return .peerPart
   | [.str "peerFin"] => return .peerFin
   | [.str "peerRst"] => return .peerRst
   | [.str "call", o, r] => return .call (← parseOp (← o.getStr?)) (← parseOut r)
